@@ -13,7 +13,8 @@ translation to SystemVerilog / Yosys-Verilog (`tr`, `trStmt`) mirroring, clause 
   …/VBehavioralTranslatorL3.py   visit_Attribute (struct member), visit_StructInst
   passes/backends/yosys/translation/behavioral/YosysBehavioralTranslatorL1–L3.py   visit_SizeCast,
       visit_Attribute / visit_FreeVar (constants inlined as literals), struct members mangled to
-      `a__b`, visit_For / visit_LoopVar (`integer __loopvar__<blk>_<i>`).
+      `a__b`, visit_For / visit_LoopVar (`integer __loopvar__<blk>_<i>`: a variable of a SIGNED type, so that every
+      use `N'(__loopvar__<blk>_<i>)` is a signed expression — IEEE 1800-2017 §6.24.1 — see `signSafe`).
 
 Every node carries the width the type checker computed for it (`node.Type.get_dtype().get_length()`),
 so `width` is syntactic; `WT` (Proofs/SV.lean) says that these annotations are consistent.
@@ -222,7 +223,10 @@ def tr (be : Backend) : RExpr → Expr
     match be with
     | .verilog => .cast w (.ident ("__const__" ++ x))
     | .yosys => .lit w v
-  | .loopvar blk x w => .cast w (.ident (loopVarName be blk x)) -- visit_LoopVar
+  | .loopvar blk x w =>                                         -- visit_LoopVar
+    match be with
+    | .verilog => .cast w (.ident (loopVarName be blk x))       -- `int unsigned x`
+    | .yosys => .cast w (.sgn (.ident (loopVarName be blk x)))  -- `integer __loopvar__…`: signed
   | .tmpvar x w ex => if ex then .ident x else .cast w (.ident x)   -- visit_TmpVar (not on the LHS)
   | .field e f w =>                                             -- L3 visit_Attribute
     match be with
@@ -267,6 +271,39 @@ def idxY (be : Backend) (base : Expr) : RExpr → Expr
   | _ => base
 end
 
+/-! ### signedness of the emitted expression
+
+The Yosys backend declares loop variables `integer` and renders every use as `N'(__loopvar__…)`: a signed
+expression.  An operator whose operands are ALL signed is evaluated signed (IEEE 1800-2017 §11.8.1); among the
+emitted operators the result then differs from PyMTL's unsigned arithmetic for `< <= > >=` and `%` (`+ - * & | ^ ~
+<< >> == !=` and `?:` give the same bits at the node's own width).  `signSafe` excludes exactly these nodes. -/
+
+/-- the emitted expression is signed -/
+def sgnOf (be : Backend) (e : RExpr) : Bool := signedOf (tr be e)
+
+def RCmp.ordering : RCmp → Bool
+  | .lt | .le | .gt | .ge => true
+  | _ => false
+
+/-- no sub-expression applies `< <= > >=` or `%` to two operands whose emitted forms are both signed -/
+def signSafe (be : Backend) : RExpr → Bool
+  | .cast _ e => signSafe be e
+  | .field e _ _ => signSafe be e
+  | .index e i _ => signSafe be e && signSafe be i
+  | .slice e _ _ _ _ => signSafe be e
+  | .partsel e b _ => signSafe be e && signSafe be b
+  | .cat1 e => signSafe be e
+  | .concat a r => signSafe be a && signSafe be r
+  | .zext _ e => signSafe be e
+  | .sext _ e => signSafe be e
+  | .trunc _ e => signSafe be e
+  | .reduce _ e => signSafe be e
+  | .inv e => signSafe be e
+  | .bin op a b => signSafe be a && signSafe be b && !(op == .mod && sgnOf be a && sgnOf be b)
+  | .cmp op a b => signSafe be a && signSafe be b && !(op.ordering && sgnOf be a && sgnOf be b)
+  | .ifexp c t f => signSafe be c && signSafe be t && signSafe be f
+  | _ => true
+
 /-- an assignment target: like `tr`, but a temporary is never cast (`is_assign_LHS`) -/
 def trLhs (be : Backend) : RExpr → Expr
   | .tmpvar x _ _ => .ident x
@@ -297,10 +334,18 @@ def trStmt (be : Backend) : RStmt → Stmt
         (.bin (if neg then .sub else .add) (.ident v) (.lit pw step)) (trStmt be body)
     | .yosys =>
       -- YosysBehavioralTranslatorL2.visit_For: the comparison is `<` for either sign of the step
-      .for_ false v (.lit sw start) (.bin .lt (.ident v) (.lit ew stop))
-        (.bin (if neg then .sub else .add) (.ident v) (.lit pw step)) (trStmt be body)
+      -- (the `integer` loop variable is signed; the header compares it with / adds to it an unsigned literal)
+      .for_ false v (.lit sw start) (.bin .lt (.sgn (.ident v)) (.lit ew stop))
+        (.bin (if neg then .sub else .add) (.sgn (.ident v)) (.lit pw step)) (trStmt be body)
 
 /-- the values `range(start, stop, ±step)` takes (fuel = an upper bound on their number) -/
+def signSafeS (be : Backend) : RStmt → Bool
+  | .skip => true
+  | .assign _ l r => signSafe be l && signSafe be r
+  | .ite c t e => signSafe be c && signSafeS be t && signSafeS be e
+  | .seq a b => signSafeS be a && signSafeS be b
+  | .for_ _ _ _ _ _ _ _ _ _ body => signSafeS be body
+
 def pyRange (start stop step : Nat) (neg : Bool) : Nat → List Nat
   | 0 => []
   | fuel+1 =>
